@@ -201,7 +201,11 @@ def run_check(prop, tier='quick', seed=0, strict=False, procs=None):
                                                     '(candidate input replayed natively: reproduced)' % o['label']))
                         continue
                 base = baseline.get(r['function'], {})
-                if o['label'] in base.get('discharged', []) and base.get('sha256') != r.get('sha256'):
+                # ownership side condition: it is generated only where a container is shared, so "absent from the
+                # baseline of a function that verified there" means it held on the unchanged tree
+                held_before = o['label'] in base.get('discharged', []) or \
+                    (o['label'].startswith('no-shared-container') and base.get('discharged'))
+                if held_before and base.get('sha256') != r.get('sha256'):
                     # the obligation was discharged on the unchanged tree; the function's text changed and the
                     # solvers can no longer prove it: reported as a violation without a failing input
                     violations.append(write_replay(prop, o['id'], {
